@@ -110,3 +110,16 @@ Definition explicit_reg_info (name : string) (new : bool) : option (regop * N) :
   | Some c, Some n, Some w => Some (RExpl (Z.of_N n) c new, w)
   | _, _, _ => None
   end.
+
+(* C11 6.4.4.1 (int = 32, long = long long = 64): used only by the REPAIRED model (switch fx_literals) *)
+Definition c11_literal_vtype (v : Z) (hex : bool) (suffix : string) : option vtype :=
+  let mk := fun (sg : bool) (w : N) => mkvt sg w false false false false false false false in
+  let fits := fun (sg : bool) (w : N) => if sg then (v <? 2 ^ (Z.of_N w - 1))%Z else (v <? 2 ^ Z.of_N w)%Z in
+  let s32 := (true, 32%N) in let u32 := (false, 32%N) in let s64 := (true, 64%N) in let u64 := (false, 64%N) in
+  let cands : list (bool * N) :=
+    if String.eqb suffix "" then (if hex then [s32; u32; s64; u64] else [s32; s64])
+    else if String.eqb suffix "U" then [u32; u64]
+    else if String.eqb suffix "LL" then (if hex then [s64; u64] else [s64])
+    else if String.eqb suffix "ULL" then [u64]
+    else [] in
+  match find (fun c => fits (fst c) (snd c)) cands with Some (sg, w) => Some (mk sg w) | None => None end.
